@@ -281,7 +281,7 @@ func gen(t *rapid.T) Case {
 			objs = append(objs, objInfo{path: p, kind: "group"})
 			return hist.Op{K: "group", Path: p}
 		}
-		d := &hist.DSpec{Type: rapid.SampledFrom([]string{"i32", "f64", "u8", "i16", "f32", "u64", "str", "cmp:num", "vl:str", "vl:i32"}).Draw(t, "type")}
+		d := &hist.DSpec{Type: rapid.SampledFrom([]string{"i32", "f64", "u8", "i16", "f32", "u64", "str", "cmp:num", "vl:str", "vl:i32", "vl:u32", "vl:f64", "vl:u64"}).Draw(t, "type")}
 		if d.Type == "str" {
 			d.StrSize = 5
 		}
